@@ -70,7 +70,7 @@ Definition den_callable (c : scallable) (s : str) (pos : nat) : cres :=
   match c with
   | SCLit l repl => if startswith u l then CMatch (List.length l) repl else CNone
   | SCDoc =>
-      match rx_match (RxClassMin 65 90 2) u with
+      match rx_match (RxClassMin 65 90 2) None u with
       | Some (n, _) => CMatch n (braces (firstn n u))
       | None => if startswith u s_dots then CMatch 3 (lit "\ldots") else CNone
       end
@@ -115,6 +115,7 @@ Definition rx_consumes (r : rx) : bool :=
   | RxClassMin _ _ n => Nat.leb 1 n
   | RxRep _ n => Nat.leb 1 n
   | RxGroup _ _ _ _ => true
+  | RxNotAfter _ _ l | RxBol l => match l with [] => false | _ => true end
   end.
 Definition callable_consumes (c : scallable) : bool :=
   match c with
